@@ -446,6 +446,12 @@ class Acceptor(object):
                     target[1].append(cid)
         if ev.get("raised"):
             self.any_fail.append((ev["kind"], ev.get("name"), ev["raised"], ev["seq"]))
+        if any(d[0] == "skip_container" for d in ev["all_did"]) and not self.p.dead:
+            # user code skipped the enclosing feature / rule while it was running: what of the
+            # remainder still runs is not fixed by any property - trace checking ends here, the
+            # checks over the final model (roll-up, reports) stay in force
+            self.p.notes["container_skipped_midrun"] = True
+            self.p.dead = True
         if ev["kind"] == "hook" and ev.get("raised") == "KeyboardInterrupt":
             # an interrupt inside a hook aborts the run; what still runs afterwards is not
             # specified by any property: trace checking ends here, the end-of-run checks
@@ -942,6 +948,11 @@ class Acceptor(object):
                 for nk, nn, nr in sev["nested_raised"]:
                     if nr == "KeyboardInterrupt":
                         self.aborted = True
+                # a step function run through execute_steps() that raises makes execute_steps() raise
+                # in the caller (the shim never swallows it): the calling step cannot return normally
+                if r is None and any(nk == "step" for nk, nn, nr in sev["nested_raised"]):
+                    self.violate([("C02", "status-map"), ("C01", "false-green")], "nested-step-failure-swallowed",
+                                 {"scen": sid, "idx": idx, "nested": [list(x) for x in sev["nested_raised"]][:3]}, sev)
             if aev is not None and aev.get("raised"):
                 allowed, nonpass = {"hook_error"}, True
                 e["why"] = "after_step-failed"
